@@ -871,6 +871,30 @@ pub fn run_slice_history<A: Atomicity>(rng: &mut Rng, nops: usize, st: &mut Stat
                         Err(orig) if !sm.is_ascii() && &*orig == &*sm => {},
                         _ => return Err((format!("#{opno} try_into_subset::<ASCII>"), "outcome differs from is_ascii()".into())),
                     }
+                    // WTF-8 -> UTF-8 subset conversions: Ok exactly when the bytes are valid UTF-8 (a lone
+                    // surrogate anywhere makes it Err, whatever other 0xED-led characters come before it)
+                    {
+                        let parts: [&[u8]; 8] = ["\u{d55c}".as_bytes(), b"a", &[0xED, 0xA0, 0x80], &[0xED, 0xB0, 0x80], "é".as_bytes(), "\u{d7ff}".as_bytes(), "\u{d000}".as_bytes(), "\u{10000}".as_bytes()];
+                        let mut wb: Vec<u8> = vec![];
+                        for _ in 0..rng.range(1, 6) {
+                            let part = *rng.pick(&parts);
+                            // keep it well-formed WTF-8: never a lead surrogate directly followed by a trail surrogate
+                            if part == [0xED, 0xB0, 0x80] && wb.ends_with(&[0xED, 0xA0, 0x80]) {
+                                continue;
+                            }
+                            wb.extend_from_slice(part);
+                        }
+                        if let Ok(w) = Tendril::<WTF8, A>::try_from_byte_slice(&wb) {
+                            let valid = std::str::from_utf8(&wb).is_ok();
+                            let by_ref = w.try_as_subset::<UTF8>().is_ok();
+                            let by_val = w.clone().try_into_subset::<UTF8>().is_ok();
+                            let view = w.try_reinterpret_view::<UTF8>().is_ok();
+                            if by_ref != valid || by_val != valid || view != valid {
+                                return Err((format!("#{opno} WTF8 -> UTF8 of {wb:02x?}"), format!("try_as_subset={by_ref} try_into_subset={by_val} try_reinterpret_view={view}, the bytes are {} UTF-8", if valid { "valid" } else { "not valid" })));
+                            }
+                            st.count(if valid { "WTF8:subset-conversion:valid" } else { "WTF8:subset-conversion:has-surrogate" });
+                        }
+                    }
                     let snd: tendril::SendTendril<UTF8> = s.clone().into();
                     let rt: Tendril<UTF8, A> = snd.into();
                     if &*rt != &*sm {
